@@ -182,7 +182,9 @@ TRANSLATED = {
     'C07': ['splitIntoChunks'],
     'C08': ['isUserAuthenticated'],
     'C11': ['determineScheme', 'determineHost'],
-    'C14': ['VerifyToken', 'performPreVerificationChecks', 'cacheVerifiedToken', 'RevokeToken'],
+    'C12': ['Cache.Set', 'Cache.Get', 'Cache.Delete', 'Cache.Cleanup', 'Cache.evictOldest', 'Cache.removeItem'],
+    'C13': ['Cache.Set', 'Cache.Get', 'Cache.Delete', 'Cache.Cleanup', 'Cache.evictOldest', 'Cache.removeItem'],
+    'C14': ['VerifyToken', 'performPreVerificationChecks', 'cacheVerifiedToken', 'RevokeToken', 'TokenCache.Set', 'TokenCache.Get', 'TokenCache.Delete', 'the six methods of cache.go', 'VerifyJWTSignatureAndClaims'],
     'C15': ['isLocalRedirectTarget', 'buildFullURL', 'determineScheme', 'determineHost'],
     'C18': ['splitIntoChunks'],
     'C19': ['VerifyToken', 'performPreVerificationChecks'],
